@@ -487,6 +487,8 @@ WIDE = {
     "bigfloat mantissa bytes": lambda n: b"\xd8\x6b\xa1\xc5\x82\x00\xc2" + bytes([0x5A]) + (10 * n).to_bytes(4, "big") + b"\xff" * (10 * n) + b"\x00",
     "rational numerator bytes": lambda n: b"\xd8\x6b\xa1\xd8\x1e\x82\xc2" + bytes([0x5A]) + (10 * n).to_bytes(4, "big") + b"\xff" * (10 * n) + b"\x03\x00",
     "MIME header bytes": lambda n: b"\xd8\x24" + bytes([0x7A]) + (2 * n + 8).to_bytes(4, "big") + b"A: " + b"b " * n + b"\r\n\r\nx",
+    # map keys that all have ONE hash value (bignums that are multiples of 2**61 - 1): known finding F25
+    "colliding bignum keys": lambda n: b"\xd8\x6b\xba" + n.to_bytes(4, "big") + b"".join(b"\xc2\x4a" + (k * (2 ** 61 - 1)).to_bytes(10, "big") + b"\x00" for k in range(8, n + 8)),
     "try-each alternatives": lambda n: _envelope(man={1: 1, 2: 1, 3: cbor2.dumps({2: [[b"M"]]}), 7: cbor2.dumps([15, [cbor2.dumps([12, 0])] * n])}),
 }
 
@@ -515,6 +517,9 @@ def scaling_stream(ck):
                                                                            "seconds": [round(t1, 3), round(t4, 3)], "outcome": r4[1] if r4[0] == "exn" else "parsed"})
         if r4[0] == "exn" and r4[1] not in ALLOWED:
             fails.append({"input": {"wide": what, "members": 4 * n}, "observed": f"{r4[1]} escaped from from_cbor(...).to_obj()", "expected": "ValueError or SUITError"})
+        elif t4 > 0.5 and t4 > 9 * t1 and what == "colliding bignum keys" and ck.is_known("colliding_bignum_keys", "") is not None:
+            k = ck.is_known("colliding_bignum_keys", "")
+            ck.known_finding(k, k["what_fails"] + f" [replayed: {4 * n} keys ({len(big)} bytes) took {t4:.2f} s, {n} took {t1:.2f} s]")
         elif t4 > 0.5 and t4 > 9 * t1:
             fails.append({"input": {"wide": what, "members": 4 * n},
                           "observed": f"{4 * n} {what} ({len(big)} bytes) took {t4:.2f} s, {n} ({len(small)} bytes) took {t1:.2f} s: {t4 / t1:.0f} times the time for 4 times the input",
@@ -644,6 +649,27 @@ def _nesting_stream(ck, fails):
             fails.append({"input": {"bytes": data.hex(), "origin": f"run-sequence nested {depth} deep, parsed in a fresh interpreter (logger not stubbed)"},
                           "observed": f"parsing took {took[0]:.2f} s for {len(data)} bytes" if took else f"no result: {p.stderr[-200:]}",
                           "expected": "time proportional to the input size"})
+    # deep nesting around a BIG leaf: every level keeps copies of the bytes below it (known finding F26); judged in a fresh interpreter so
+    # that the peak of this one probe is measured
+    prog2 = ("import sys,resource;sys.path.insert(0,sys.argv[1]);import cbor2;from suit_generator.suit.envelope import SuitEnvelopeTagged\n"
+             "seq=cbor2.dumps([12,0,20,{21:'x'*1000000}])\n"
+             "for _ in range(150): seq=cbor2.dumps([32,seq])\n"
+             "d=cbor2.dumps(cbor2.CBORTag(107,{2:cbor2.dumps([cbor2.dumps([-16,bytes(32)])]),3:cbor2.dumps({1:1,2:1,7:seq})}))\n"
+             "r0=resource.getrusage(resource.RUSAGE_SELF).ru_maxrss\n"
+             "try:\n SuitEnvelopeTagged.from_cbor(d).to_obj()\nexcept Exception as e:\n print('E',type(e).__name__)\n"
+             "print('M',len(d),resource.getrusage(resource.RUSAGE_SELF).ru_maxrss-r0)")
+    p2 = subprocess.run([core.PY, "-c", prog2, core.REPO], capture_output=True, text=True, env=dict(os.environ, PYTHONPATH=core.REPO))
+    mline = [x.split() for x in p2.stdout.splitlines() if x.startswith("M ")]
+    ck.count("nesting", ("big-leaf", 150), nontrivial=True, sample={"origin": "run-sequence nested 150 deep around a 1 MB text, fresh interpreter", "result": p2.stdout[-80:]})
+    if mline:
+        size, grew_kb = int(mline[0][1]), int(mline[0][2])
+        if grew_kb * 1024 > 40 * size:
+            kf = ck.is_known("deep_nesting_big_leaf", "")
+            if kf is not None:
+                ck.known_finding(kf, kf["what_fails"] + f" [replayed: peak RSS grew by {grew_kb // 1024} MB for {size} bytes]")
+            else:
+                fails.append({"input": {"origin": "run-sequence nested 150 deep around a 1 MB suit-parameter-uri", "bytes": ""},
+                              "observed": f"peak RSS grew by {grew_kb} kB for {size} bytes", "expected": "memory proportional to the input size"})
     # beyond the interpreter's recursion limit: known finding F6
     observe(ck, "nesting", nested_run_sequences(400), fails, None, origin="run-sequence nested 400 deep")
     # plain CBOR nesting (arrays / tags) handled by the decoder itself
